@@ -17,6 +17,7 @@ func getIndelsPair(ref, query []byte, offsetRefCoord []int, offsetMSACoord []int
 		delOpen   bool
 		delStart  int
 		delLength int
+		refBases  int // the number of reference bases to the left of the current column
 	)
 
 	variants := make([]Variant, 0)
@@ -29,16 +30,20 @@ func getIndelsPair(ref, query []byte, offsetRefCoord []int, offsetMSACoord []int
 				if insOpen { // not the first position of an insertion
 					insLength++ // we increment the length counter
 				} else { // the first position of an insertion
-					insStart = pos // we record the first position of the insertion 0-based in alignment coordinates
+					// we record where the insertion starts as the number of reference bases to its
+					// left. (The alignment column of a gap in the reference can't be converted to
+					// reference coordinates when there are gaps in the reference before it)
+					insStart = refBases
 					insLength = 1
 					insOpen = true
 				}
 			}
 		} else { // not an insertion relative to the reference at this position
 			if insOpen { // first base after an insertion, so we need to log the insertion
-				variants = append(variants, Variant{Changetype: "ins", Position: (insStart - offsetMSACoord[insStart]), Length: insLength})
+				variants = append(variants, Variant{Changetype: "ins", Position: insStart, Length: insLength})
 				insOpen = false
 			}
+			refBases++
 			if query[pos] == 244 { // deletion in this seq
 				if delOpen { // not the first position of a deletion
 					delLength++ // we increment the length (there is not a deletion in the reference)
@@ -64,7 +69,7 @@ func getIndelsPair(ref, query []byte, offsetRefCoord []int, offsetMSACoord []int
 	// }
 	// catch insertions that abut the end of the alignment
 	if insOpen {
-		variants = append(variants, Variant{Changetype: "ins", Position: (insStart - offsetMSACoord[insStart]) + 1, Length: insLength})
+		variants = append(variants, Variant{Changetype: "ins", Position: insStart, Length: insLength})
 	}
 
 	return variants
